@@ -109,7 +109,9 @@ def check_spelling(case):
         except Exception as e:
             dis.append({"clause": "HexRoundTrip", "detail": "Color(Color(%r).hex) raised %s" % (s, type(e).__name__), "spelling": s})
     if case["mode"] == "keyword" and case["arg"] == "black":
-        for s, want in (("none", None), ("transparent", (0, 0, 0, 0))):
+        # (colour keywords are ASCII case-insensitive, CSS Color 3 section 4.1; "fill: NONE" in a style sheet means none)
+        for s, want in (("none", None), ("NONE", None), ("None", None), ("nOnE", None), ("transparent", (0, 0, 0, 0)), ("TRANSPARENT", (0, 0, 0, 0)),
+                        ("Transparent", (0, 0, 0, 0))):
             try:
                 c = svg.Color(s)
                 got = None if c.value is None else (c.red, c.green, c.blue, c.alpha)
